@@ -22,6 +22,7 @@ import (
 	"sort"
 	"strings"
 	"sync"
+	"syscall"
 
 	"verif/harness/evid"
 	"verif/harness/fakelfs"
@@ -189,15 +190,50 @@ func scenarios(thorough bool) []scenario {
 				}
 				env.MustGit(dst, "config", "lfs.url", srv.Endpoint("r"))
 				env.MustGit(dst, "config", "lfs.locksverify", "false")
+				os.RemoveAll(filepath.Join(dst, ".git", "lfs", "objects"))
 				return dst
 			}},
 	}
+	// reference store on another filesystem: hard links fail (EXDEV) and the copy fallback runs
+	more = append(more, scenario{name: "reference-store-other-filesystem", prog: "git-lfs", args: []string{"fetch", "origin", "main"}, crashCmd: "fetch", direct: true,
+		build: func(env *sbx.Env, srv *fakelfs.Server, r *rand.Rand) string {
+			shm, err := os.MkdirTemp("/dev/shm", "verif-c09-")
+			if err != nil {
+				panic("no /dev/shm: " + err.Error())
+			}
+			shmDirs = append(shmDirs, shm)
+			var a, b syscall.Stat_t
+			syscall.Stat(shm, &a)
+			syscall.Stat(env.Root, &b)
+			if a.Dev == b.Dev {
+				panic("/dev/shm is not a separate filesystem")
+			}
+			src0, _ := sourceRepo(env, srv, r, "src", 3)
+			src := filepath.Join(shm, "src")
+			if err := copyTree(src0, src); err != nil {
+				panic(err)
+			}
+			dst := filepath.Join(env.Root, "repo")
+			res := env.Run(sbx.RunOpt{Dir: env.Root, Env: []string{"GIT_LFS_SKIP_SMUDGE=1"}}, "git", "clone", "-q", "--shared", src, dst)
+			if !res.OK() {
+				panic(res.String())
+			}
+			env.MustGit(dst, "config", "lfs.url", srv.Endpoint("r"))
+			env.MustGit(dst, "config", "lfs.locksverify", "false")
+			env.MustGit(dst, "remote", "set-url", "origin", srv.URL+"/r.git")
+			// the clone's smudge filter already borrowed the objects; forget them so that the
+			// command under test does the borrowing (link fails across filesystems => copy)
+			os.RemoveAll(filepath.Join(dst, ".git", "lfs", "objects"))
+			return dst
+		}})
 	if thorough {
 		return append(sc, more...)
 	}
 	// quick: the three base scenarios plus a rotating sample of the others is chosen by the caller
 	return append(sc, more...)
 }
+
+var shmDirs []string
 
 type pair struct {
 	point string
@@ -299,6 +335,9 @@ func main() {
 			k = -k
 		}
 		chosen = append(chosen, rest[k], rest[(k+1)%len(rest)])
+		if last := rest[len(rest)-1]; last.name != rest[k].name && last.name != rest[(k+1)%len(rest)].name {
+			chosen = append(chosen, last)
+		}
 	}
 	maxHook := run.N(45, 400)
 	maxStrace := run.N(14, 80)
@@ -487,6 +526,9 @@ func main() {
 	for _, p := range preps {
 		p.srv.Close()
 		p.env.Cleanup()
+	}
+	for _, d := range shmDirs {
+		os.RemoveAll(d)
 	}
 	run.Finish()
 }
